@@ -593,7 +593,12 @@ func init() {
 			case "grammar":
 				c17Grammar(c, r.Parts)
 			case "string":
-				u, err := stun.ParseURI(r.S)
+				var u *stun.URI
+				var err error
+				if pn := catch(func() { u, err = stun.ParseURI(r.S) }); pn != "" {
+					c.Violation("panic", fmt.Sprintf("ParseURI(%q) %s", r.S, pn), map[string]interface{}{"kind": "string", "s": r.S})
+					return
+				}
 				if err == nil {
 					if k, msg := uriSoundK(r.S, u); msg != "" {
 						c.Violation(k, msg, map[string]interface{}{"kind": "string", "s": r.S})
